@@ -340,6 +340,24 @@ impl QVisitor for PathV<'_> {
                     if plain != n {
                         self.flags.push(format!("C17/C16: the prepared query visits {n} entities, the plain query {plain}"));
                     }
+                    // advanced once by hand, the rest consumed in one go (count goes through fold, as for_each and sum do)
+                    let n2 = {
+                        let mut b = pq.query(w);
+                        let mut it = b.iter();
+                        let first = it.next().is_some() as u64;
+                        let rest = it.count() as u64;
+                        first + rest
+                    };
+                    let n3 = {
+                        let mut b = w.query::<Q>();
+                        let mut it = b.iter();
+                        let first = it.next().is_some() as u64;
+                        let rest = it.count() as u64;
+                        first + rest
+                    };
+                    if n2 != n || n3 != n {
+                        self.flags.push(format!("C17/C08: {n} items one by one, but {n2} (prepared) / {n3} (plain) when the rest is counted after one next()"));
+                    }
                 } else if self.path == 5 {
                     let it = pq.query_mut(w);
                     let mut body = Vec::new();
@@ -347,6 +365,15 @@ impl QVisitor for PathV<'_> {
                     o.push(first);
                     o.push(n);
                     o.extend(body);
+                    let n2 = {
+                        let mut it = pq.query_mut(w);
+                        let first = it.next().is_some() as u64;
+                        let rest = it.count() as u64;
+                        first + rest
+                    };
+                    if n2 != n {
+                        self.flags.push(format!("C17/C08: query_mut of a prepared query: {n} items one by one, but {n2} when the rest is counted after one next()"));
+                    }
                 } else {
                     let mut per_handle: Vec<Vec<u64>> = Vec::new();
                     {
